@@ -39,12 +39,13 @@ def cases(tier):
         {'ops': [mk(*b, share=['buffer', 0, 0])], 'exports': [],
          'prefix': 'b_', 'key': 'sig1'}]}, 'modes': modes}
   if True:
-    for (a, b) in (PAIRS[:2] + PAIRS[4:5] if tier == 'thorough' else PAIRS[:1]):
+    for (a, b) in (PAIRS if tier == 'thorough' else PAIRS[:1]):
       for how in ('tensor', 'buffer'):
         yield {'ir': {'subgraphs': [{'ops': [
             mk(*a), mk(*b, share=[how, 0, 0]), mk(*a, share=[how, 0, 0])],
             'exports': []}]},
-            'modes': ['NQ', 'SRQ8a', 'SRQ16', 'DRQ8c', 'DRQ4c', 'WO8c', 'FP16']}
+            'modes': (md.MODE12 if tier == 'thorough' else
+                      ['NQ', 'SRQ8a', 'SRQ16', 'DRQ8c', 'DRQ4c', 'WO8c', 'FP16'])}
 
 
 def plan(tier, seed):
